@@ -29,13 +29,14 @@ from funsor.util import quote
 
 
 def _partition(terms, sum_vars):
-    # Construct a bipartite graph between terms and the vars
-    neighbors = OrderedDict([(t, []) for t in terms])
-    for term in terms:
+    # Construct a bipartite graph between terms and the vars. Terms are
+    # represented by their position, since the same term may occur repeatedly.
+    neighbors = OrderedDict([(i, []) for i in range(len(terms))])
+    for i, term in enumerate(terms):
         for dim in term.inputs.keys():
             if dim in sum_vars:
-                neighbors[term].append(dim)
-                neighbors.setdefault(dim, []).append(term)
+                neighbors[i].append(dim)
+                neighbors.setdefault(dim, []).append(i)
 
     # Partition the bipartite graph into connected components for contraction.
     components = []
@@ -52,11 +53,9 @@ def _partition(terms, sum_vars):
                     pending.append(v)
 
         # Split this connected component into tensors and dims.
-        component_terms = tuple(v for v in component if isinstance(v, Funsor))
+        component_terms = tuple(terms[v] for v in component if isinstance(v, int))
         if component_terms:
-            component_dims = frozenset(
-                v for v in component if not isinstance(v, Funsor)
-            )
+            component_dims = frozenset(v for v in component if not isinstance(v, int))
             components.append((component_terms, component_dims))
     return components
 
